@@ -62,6 +62,11 @@ pub struct SourceDecl {
     /// register the unique `id` column as NOT NULL (it never holds a NULL)
     #[serde(default)]
     pub id_not_null: bool,
+    /// columns (BIGINT / VARCHAR, never `id`) registered as `Dictionary(Int32, _)` arrays whose dictionary VALUES hold a NULL
+    /// that keys point at (every other NULL row; the rest are NULL keys) plus an unused value: logical NULLs that are not in
+    /// the array's own validity buffer
+    #[serde(default)]
+    pub dict_cols: Vec<u8>,
 }
 
 #[derive(Clone, Debug, Serialize, Deserialize)]
@@ -85,8 +90,8 @@ impl WalkCase {
             .sources
             .iter()
             .enumerate()
-            .filter(|(_, s)| !s.sort.is_empty() || s.extra || s.id_not_null)
-            .map(|(i, s)| format!("t{i}: sort={:?} renumber={} extra={} id_not_null={}", s.sort, s.renumber, s.extra, s.id_not_null))
+            .filter(|(_, s)| !s.sort.is_empty() || s.extra || s.id_not_null || !s.dict_cols.is_empty())
+            .map(|(i, s)| format!("t{i}: sort={:?} renumber={} extra={} id_not_null={} dict_cols={:?}", s.sort, s.renumber, s.extra, s.id_not_null, s.dict_cols))
             .collect();
         format!(
             "\n  sql: {}\n  variant: tp={} batch_size={:?} mem_partitions={} batch_rows={:?} strings={:?} options={:?}\n  declared sources: {}",
@@ -196,9 +201,9 @@ pub fn source_strategy() -> BoxedStrategy<SourceDecl> {
     let key = (0u8..6, any::<bool>(), any::<bool>()).prop_map(|(col, desc, nulls_first)| SortKey { col, desc, nulls_first });
     prop_oneof![
         2 => Just(SourceDecl::default()),
-        5 => (prop::collection::vec(key, 1..=3), any::<bool>(), prop::bool::weighted(0.6), any::<bool>()).prop_map(|(sort, renumber, extra, id_not_null)| SourceDecl { sort, renumber, extra, id_not_null }),
-        1 => Just(SourceDecl { sort: vec![], renumber: false, extra: true, id_not_null: false }),
-        2 => Just(SourceDecl { sort: vec![], renumber: false, extra: false, id_not_null: true }),
+        5 => (prop::collection::vec(key, 1..=3), any::<bool>(), prop::bool::weighted(0.6), any::<bool>()).prop_map(|(sort, renumber, extra, id_not_null)| SourceDecl { sort, renumber, extra, id_not_null, dict_cols: vec![] }),
+        1 => Just(SourceDecl { sort: vec![], renumber: false, extra: true, id_not_null: false, dict_cols: vec![] }),
+        2 => Just(SourceDecl { sort: vec![], renumber: false, extra: false, id_not_null: true, dict_cols: vec![] }),
     ]
     .boxed()
 }
@@ -221,6 +226,11 @@ pub fn case_strategy(tier: Tier, purpose: Purpose, ref_weight: u32, tmpl_weight:
 /// -0.0 → 0.0 and every NaN → one NaN, so that comparators built on the IEEE total order agree with SQL equality
 pub fn canon(a: &ArrayRef) -> ArrayRef {
     match a.data_type() {
+        // logical values: a dictionary is hydrated (a key pointing at a NULL dictionary value becomes a NULL)
+        DataType::Dictionary(_, vt) => match datafusion::arrow::compute::cast(a.as_ref(), vt.as_ref()) {
+            Ok(h) => canon(&h),
+            Err(_) => a.clone(),
+        },
         DataType::Float64 => {
             let f = a.as_any().downcast_ref::<Float64Array>().unwrap();
             let out: Float64Array = f.iter().map(|v| v.map(|x| if x == 0.0 { 0.0 } else if x.is_nan() { f64::NAN } else { x })).collect();
@@ -237,6 +247,7 @@ pub fn canon(a: &ArrayRef) -> ArrayRef {
 
 pub fn has_nan(a: &ArrayRef) -> bool {
     match a.data_type() {
+        DataType::Dictionary(_, vt) => datafusion::arrow::compute::cast(a.as_ref(), vt.as_ref()).map(|h| has_nan(&h)).unwrap_or(false),
         DataType::Float64 => a.as_any().downcast_ref::<Float64Array>().unwrap().iter().flatten().any(|x| x.is_nan()),
         DataType::Float32 => a.as_any().downcast_ref::<Float32Array>().unwrap().iter().flatten().any(|x| x.is_nan()),
         _ => false,
@@ -307,6 +318,36 @@ fn order_rows(t: &mut Table, keys: &[SortKey]) {
     });
 }
 
+/// `Dictionary(Int32, Utf8 | Int64)` rendering of a string / integer column: the dictionary holds the column's distinct
+/// values, then a NULL, then a value no key uses; every other NULL row points at the NULL dictionary entry (a logical NULL
+/// that is not in the array's validity buffer), the remaining NULL rows are NULL keys
+fn dictionary_with_null_value(a: &ArrayRef) -> Result<ArrayRef, String> {
+    use datafusion::arrow::array::{DictionaryArray, Int32Array, Int64Array, StringArray, new_null_array};
+    use datafusion::arrow::compute::{cast, concat};
+    use datafusion::arrow::datatypes::Int32Type;
+    let vt = if matches!(a.data_type(), DataType::Int64) { DataType::Int64 } else { DataType::Utf8 };
+    let plain = cast(a.as_ref(), &vt).map_err(|e| e.to_string())?;
+    let d = cast(plain.as_ref(), &DataType::Dictionary(Box::new(DataType::Int32), Box::new(vt.clone()))).map_err(|e| e.to_string())?;
+    let d = d.as_any().downcast_ref::<DictionaryArray<Int32Type>>().ok_or("not a dictionary")?;
+    let n_values = d.values().len();
+    let unused: ArrayRef = if vt == DataType::Int64 { Arc::new(Int64Array::from(vec![987_654_321i64])) } else { Arc::new(StringArray::from(vec!["~unused"])) };
+    let null_entry = new_null_array(&vt, 1);
+    let values = concat(&[d.values().as_ref(), null_entry.as_ref(), unused.as_ref()]).map_err(|e| e.to_string())?;
+    let mut seen_nulls = 0;
+    let keys: Int32Array = d
+        .keys()
+        .iter()
+        .map(|k| match k {
+            Some(k) => Some(k),
+            None => {
+                seen_nulls += 1;
+                if seen_nulls % 2 == 1 { Some(n_values as i32) } else { None }
+            }
+        })
+        .collect();
+    Ok(Arc::new(DictionaryArray::<Int32Type>::try_new(keys, values).map_err(|e| e.to_string())?))
+}
+
 /// what a registered table declares (for labels and messages)
 #[derive(Clone, Debug, Default)]
 pub struct Declared {
@@ -357,6 +398,32 @@ pub fn mem_table_declared(t: &Table, decl: &SourceDecl, v: &Variant) -> Result<(
                 batches = rebuilt;
             }
         }
+    }
+    let dict: Vec<usize> = decl.dict_cols.iter().map(|c| *c as usize).filter(|c| *c < t.cols.len() && t.cols[*c].name != "id" && matches!(t.cols[*c].ty, refsql::Ty::Int | refsql::Ty::Str)).collect();
+    if !dict.is_empty() {
+        let fields: Vec<datafusion::arrow::datatypes::Field> = schema
+            .fields()
+            .iter()
+            .enumerate()
+            .map(|(i, f)| {
+                if dict.contains(&i) {
+                    let vt = if t.cols[i].ty == refsql::Ty::Str { DataType::Utf8 } else { DataType::Int64 };
+                    datafusion::arrow::datatypes::Field::new(f.name(), DataType::Dictionary(Box::new(DataType::Int32), Box::new(vt)), true)
+                } else {
+                    f.as_ref().clone()
+                }
+            })
+            .collect();
+        schema = Arc::new(datafusion::arrow::datatypes::Schema::new(fields));
+        let mut rebuilt = vec![];
+        for b in &batches {
+            let mut cols = b.columns().to_vec();
+            for i in &dict {
+                cols[*i] = dictionary_with_null_value(&cols[*i])?;
+            }
+            rebuilt.push(RecordBatch::try_new(schema.clone(), cols).map_err(|e| e.to_string())?);
+        }
+        batches = rebuilt;
     }
     let np = v.mem_partitions.max(1);
     let mut parts: Vec<Vec<RecordBatch>> = vec![vec![]; np];
@@ -586,6 +653,7 @@ pub fn walk(case: &WalkCase) -> Result<Walk, WalkFail> {
 
 /// Shapes of the physical plan that open known findings are keyed on (planning only, no execution).
 #[derive(Clone, Debug, Default)]
+#[allow(dead_code)]
 pub struct PlanProbe {
     /// a `PlaceholderRowExec` declaring columns (left behind by the aggregate-from-statistics rewrite)
     pub typed_placeholder_row: bool,
@@ -597,6 +665,7 @@ pub struct PlanProbe {
     pub limited_aggregate_with_ordering: bool,
 }
 
+#[allow(dead_code)]
 pub fn probe_plan(root: &Arc<dyn ExecutionPlan>) -> PlanProbe {
     let mut p = PlanProbe::default();
     for (_, _, n) in enumerate_nodes(root) {
